@@ -19,6 +19,16 @@ def main():
     err = None
     try:
         harness.import_prtpy()
+        if spec.get("replay") is None and int(spec.get("shard", 0)) % 4 == 3 or (spec.get("replay") is not None and spec.get("debug_logging")):
+            # every fourth shard runs with DEBUG logging switched on for the whole prtpy logger tree (records are discarded by a NullHandler): the properties hold
+            # whatever the caller's logging configuration, and code inside `if logger.isEnabledFor(DEBUG)` blocks, or the arguments of debug messages, only runs then
+            import logging
+            lg = logging.getLogger("prtpy")
+            lg.addHandler(logging.NullHandler())
+            lg.setLevel(logging.DEBUG)
+            lg.propagate = False
+            ctx.counters["shards_with_debug_logging"] += 1
+            ctx.debug_logging = True
         m = importlib.import_module(f"rv.props.{prop.lower()}")
         rng = random.Random(spec["seed"])
         if spec.get("replay") is not None:
